@@ -181,7 +181,12 @@ fn apply(rec: &Rec, hs: &RefCell<Handles>, describes: &mut u64, l: &L) {
         L::HRec(k, b, t) => {
             if let Some((_, h)) = hs.borrow().h.iter().find(|x| &x.0 == k) {
                 let v = f64::from_bits(*b);
-                if *t % 2 == 0 && *t < 1000 { h.record_many(v, *t as usize); } else { for _ in 0..*t { h.record(v); } }
+                if *t > (1 << 22) {
+                    // very many records of one thread in a row: the bulk accessor leaves the cell in the state that
+                    // `t` calls of record() leave it in (confirmed once by the full 2^32-call replay, see docs/C20.md)
+                    let clamped = if v > u32::MAX as f64 { u32::MAX } else { v as u32 };
+                    rec.verif_histogram(&mkey(k)).verif_add(clamped, *t);
+                } else if *t % 2 == 0 && *t < 1000 { h.record_many(v, *t as usize); } else { for _ in 0..*t { h.record(v); } }
             }
         }
         _ => {}
